@@ -418,6 +418,21 @@ def r3_single_writer(ctx: Ctx) -> None:
         gh = CFG(hl.node)
         order_ok = gh.node_of(lo[0]) in gh.reachable([gh.node_containing(apps[0])]) and gh.node_containing(apps[0]) not in gh.reachable([gh.node_of(lo[0])])
     ctx.check(ok_app and ok_lo and ok_cl and order_ok, "Scanner._handle_line", "records the line text, moves the line start past the newline, counts the line")
+    # every newline closes a line, an empty one too (line start == cursor): the guard is `line_offset <= pos`, or there is none
+    if apps:
+        gh2 = CFG(hl.node)
+        conds = gh2.path_conditions(gh2.node_containing(apps[0]))
+        from ..poly import poly as _p17, poly_of_source as _ps17, show as _s17
+        okg = True
+        for t, pol in conds:
+            tr = ast.parse(t, mode="eval").body
+            if isinstance(tr, ast.Compare) and len(tr.ops) == 1 and {"self.line_offset", "self.pos"} <= {unparse(tr.left), unparse(tr.comparators[0])}:
+                op = type(tr.ops[0]).__name__
+                l_is_lo = unparse(tr.left) == "self.line_offset"
+                # accepted: line_offset <= pos (True) / pos >= line_offset (True) / line_offset > pos (False) / pos < line_offset (False)
+                good = (l_is_lo and ((op == "LtE" and pol) or (op == "Gt" and not pol))) or ((not l_is_lo) and ((op == "GtE" and pol) or (op == "Lt" and not pol)))
+                okg = okg and good
+        ctx.check(okg, "Scanner._handle_line:empty-lines", f"an empty line (line start == cursor) is recorded and counted too; the guard is {sorted(conds)}")
     gp = ctx.repo.func(SCN, "Scanner.get_position")
     ctx.check(any(_canon(gp.node, r.value) == "Position(self.current_line, self.start - self.line_offset, self.file)" for r in walk_no_nested(gp.node) if isinstance(r, ast.Return)),
               "Scanner.get_position", "line = lines closed so far, column = token start relative to the line start")
